@@ -329,14 +329,16 @@ Definition dispatch_enc (op : bytes) (args : list val) : option val :=
     | _ => bad "mkevent-arity"
     end
   else if op_is op "expect_image" then
-    (* (expect_image tzoff ((ty uns) ...) (cellv ...)) -> ((code absent data) ...) *)
+    (* (expect_image tzoff ((ty uns) ...) (cellv ...)) -> ((code absent data) ...)
+       cellv = absent | null | value (Model/DispatchCell.v parse_value; a JSON value is (json <doc>));
+       data carries the oracle markers (ffmt_marker for FLOAT / DOUBLE, efmt_marker inside JSON texts) *)
     match args with
     | [tzo; L tys; L cs] =>
       match as_int tzo,
             map_opt (fun x => match x with L [t; u] => match parse_ty t, as_bool u with Some t, Some u => Some (t, u) | _, _ => None end | _ => None end) tys,
             map_opt parse_cellv cs with
       | Some tzo, Some tys, Some cs =>
-        Some (L (map (fun p => let '(code, ab, d) := expect_cell ffmt_marker (fun _ => tzo) (fst (fst p)) (snd (fst p)) (snd p) in
+        Some (L (map (fun p => let '(code, ab, d) := expect_cell ffmt_marker (fun _ => tzo) efmt_marker (fst (fst p)) (snd (fst p)) (snd p) in
                                L [vint code; vbool ab; vopt_hex d]) (combine tys cs)))
       | _, _, _ => bad "expect_image"
       end
